@@ -1182,7 +1182,8 @@ func checkLookaround(w *World, r *Report) {
 		return false
 	}
 	// v ± k
-	split := func(idx ssa.Value) (base ssa.Value, k int64, ok bool) {
+	var split func(idx ssa.Value) (base ssa.Value, k int64, ok bool)
+	split1 := func(idx ssa.Value) (base ssa.Value, k int64, ok bool) {
 		bo, isBo := idx.(*ssa.BinOp)
 		if !isBo || (bo.Op != token.ADD && bo.Op != token.SUB) {
 			return nil, 0, false
@@ -1198,6 +1199,21 @@ func checkLookaround(w *World, r *Report) {
 			c = -c
 		}
 		return bo.X, c, true
+	}
+	// constants accumulate: (len(x) - 1) - 1 is len(x) - 2
+	split = func(idx ssa.Value) (ssa.Value, int64, bool) {
+		base, k, ok := split1(idx)
+		if !ok {
+			return nil, 0, false
+		}
+		for i := 0; i < 4; i++ {
+			b2, k2, ok2 := split1(unspill(base))
+			if !ok2 {
+				break
+			}
+			base, k = b2, k+k2
+		}
+		return base, k, true
 	}
 	lenOf := func(v ssa.Value, x ssa.Value) bool {
 		c, ok := v.(*ssa.Call)
